@@ -47,7 +47,7 @@ func main() {
 	if *tier == "thorough" {
 		n = 8000
 	}
-	g := &audgen.Gen{R: rng, Modalities: cmd.VerifModalities(), PErrExpr: 0.06, MaxMembers: 3, WithCollect: false}
+	g := &audgen.Gen{R: rng, Modalities: cmd.VerifModalities(), PErrExpr: 0.06, PErrOther: 0.15, MaxMembers: 3, WithCollect: false}
 	var items []string
 	var cases []caseJSON
 	stats := map[string]int{}
@@ -68,7 +68,7 @@ func main() {
 			continue
 		}
 		es = audgen.FilterSinks(es, sinks)
-		res := cmd.VerifAudition(text, audgen.ToVerifEvents(es), false, false)
+		res := cmd.VerifAuditLoop(text, audgen.ToVerifEvents(es), false)
 		if res.ParseErr != "" {
 			stats["parse-rejected"]++
 			continue
